@@ -97,6 +97,7 @@ func (w *world) tOpen(inc *incM, name, owner string, acc uint32, how string) *tm
 		}
 	} else {
 		t.parkOK = []string{"open_before", "open_after"}
+		t.faultOK = []string{"openchild", "openself", "newfile"}
 		t.predict = func(c *call) {
 			leaf := w.lookupTruth(name)
 			st := nfsv4.NFS4_OK
@@ -140,7 +141,7 @@ func (w *world) tOpen(inc *incM, name, owner string, acc uint32, how string) *tm
 }
 
 func (w *world) tOpenFH(inc *incM, fh []byte, owner string, acc uint32) *tmpl {
-	t := &tmpl{kind: "open_fh", stateOp: true, data: map[string]any{}}
+	t := &tmpl{kind: "open_fh", stateOp: true, data: map[string]any{}, faultOK: []string{"openself"}}
 	t.desc = fmt.Sprintf("PUTFH %s; OPEN(CLAIM_FH, owner %q, %s)", w.fhName(fh), owner, accString(acc))
 	t.ops = []nfsv4.NfsArgop4{
 		opPutFH(fh),
@@ -636,6 +637,7 @@ func (w *world) tLockU(inc *incM, fh []byte, sid nfsv4.Stateid4, how string, r l
 		}
 		l.seq = got.Seqid
 		w.applyLock(l.open.leaf, l.ownerKey(), t.data["lo"].(int), t.data["hi"].(int), 0)
+		w.markProbe(l.open.leaf, "locku")
 	}
 	return t
 }
@@ -728,13 +730,16 @@ func (w *world) tIO(inc *incM, op string, fh []byte, sid nfsv4.Stateid4, how str
 	case "READ":
 		second = &nfsv4.NfsArgop4_OP_READ{Opread: nfsv4.Read4args{Stateid: sid, Offset: 0, Count: 4}}
 		t.parkOK = []string{"io"}
+		t.faultOK = []string{"read", "read", "openself"}
 	case "WRITE":
 		bit, acc = bitW, accW
 		second = &nfsv4.NfsArgop4_OP_WRITE{Opwrite: nfsv4.Write4args{Stateid: sid, Offset: 1, Stable: nfsv4.FILE_SYNC4, Data: []byte{0x5a}}}
 		t.parkOK = []string{"io"}
+		t.faultOK = []string{"write", "write", "openself"}
 	case "SETATTR":
 		bit, acc = bitW, accW
 		second = &nfsv4.NfsArgop4_OP_SETATTR{Opsetattr: nfsv4.Setattr4args{Stateid: sid, ObjAttributes: sizeAttr(3)}}
+		t.faultOK = []string{"setattr"}
 	}
 	t.ops = []nfsv4.NfsArgop4{opPutFH(fh), second}
 	special := sid == anonSID || sid == bypassSID
@@ -967,6 +972,10 @@ func (w *world) tOpenThen(inc *incM, name, owner string, acc uint32, then, via s
 	t := w.tOpen(inc, name, owner, acc, "nocreate")
 	t.kind = "open_then_" + then
 	t.parkOK = nil
+	switch then {
+	case "read", "write", "setattr":
+		t.faultOK = []string{"openchild", "openself", then, then}
+	}
 	sameLeaf := w.lookupTruth(name)
 	if sameLeaf == nil && via == "putfh_same" {
 		via = "none"
